@@ -73,6 +73,26 @@ const ILL_TYPED: &[&str] = &[
     "30 DEF ZZ$(C$) = C$", "40 DEF JJ(K, C$) = K", "50 PRINT QQ(\"a\") : PRINT ZZ$(1) : PRINT JJ(\"a\", 1)", "60 PRINT JJ(1, \"a\")", "RUN", "PRINT QQ(\"a\")", "PRINT ZZ$(1)", "RESTORE",
 ];
 
+/// FOR / NEXT / GOSUB typed one statement per turn at the prompt (every direct-mode
+/// statement shares the immediate line's location), and program lines whose THEN and
+/// ELSE clauses both open loops, re-entered by a counter-guarded jump.
+const LOOPY: &[&str] = &[
+    "FOR I = 1 TO 1", "FOR J = 1 TO 1 STEP 1", "FOR K = 1 TO 3", "FOR I = 1 TO 2 STEP 1", "FOR J = 5 TO 1 STEP -1", "NEXT I", "NEXT J", "NEXT K",
+    "FOR I = 1 TO 2 : FOR J = 1 TO 2", "FOR J = 1 TO 2 : FOR I = 1 TO 2 : FOR J = 1 TO 2", "NEXT J : NEXT I", "GOSUB 100", "RETURN", "GOTO 10", "GOTO 20", "RUN", "CONT",
+    "A = 1 - A", "C = 0", "10 FOR J = 1 TO 5", "10 FOR I = 1 TO 2", "10", "20 A = 1 - A : IF A THEN FOR I = 1 TO 5 ELSE FOR J = 1 TO 5",
+    "20 IF A THEN FOR K = 1 TO 2 ELSE FOR I = 1 TO 2", "20", "30 C = C + 1 : IF C < 4 THEN 20", "30 C = C + 1 : IF C < 40 THEN 10", "30", "40 NEXT I", "40 NEXT J", "40 STOP", "40",
+    "100 FOR K = 1 TO 2 : RETURN", "100 RETURN", "15 GOSUB 100", "15",
+];
+
+fn loop_session() -> impl Strategy<Value = Session> {
+    let intent = prop_oneof![
+        12 => (0..LOOPY.len()).prop_map(|i| Intent::Line(LOOPY[i].to_string())),
+        4 => (1u16..40).prop_map(Intent::Continue),
+        1 => Just(Intent::Break),
+    ];
+    prop::collection::vec(intent, 1..60).prop_map(|intents| Session { intents, verify_listing: false })
+}
+
 fn typing_session() -> impl Strategy<Value = Session> {
     let pool = crate::run::reply_pool();
     let intent = prop_oneof![
@@ -286,12 +306,13 @@ pub fn property() -> Property {
             check_cap,
         ),
         prop_family("typing-sessions", 80_000, 1_000_000, |_| typing_session(), check_session),
+        prop_family("loop-sessions", 60_000, 800_000, |_| loop_session(), check_session),
         prop_family("structured-sessions", 50_000, 1_000_000, |_| structured_session(), check_session),
         prop_family("hostile-sessions", 80_000, 1_000_000, |_| hostile_session(), check_session),
     ];
     Property {
         id: "C16",
-        rule: "cap-scripts (exhaustive list): GOSUB recursion to depth 1..100, 1..40 nested FOR loops over distinct variables, a FOR pair re-entered by GOTO up to 5000 times, loops abandoned by GOTO/RETURN up to 1000 times, DIM with 0..2^32-1 x {1, 100} cells around the 10000-cell cap, implicit arrays with 1..40 subscripts read and written; the error (OUT OF MEMORY STACK OVERFLOW / ARRAY TOO LARGE) must appear exactly when the stated cap is exceeded and the interpreter must stay usable. typing-sessions: ill-typed writes through LET, cell assignment, FOR variable, NEXT, READ, INPUT replies and parameter binding with $ and non-$ names. structured-/hostile-sessions: C01's generators. Invariant after every host call (snapshot hook): <= 32 frames; <= 32 open loops over pairwise distinct variables, each a FOR variable that occurred in the session; every array's cell count equals the product of its dimensions and is <= 10000; every scalar, array and frame binding has the kind its name's suffix demands. Non-trivial: the session reached depth >= 31, >= 31 open loops, an array of >= 5000 cells or a rejected ill-typed write; distinct by call-kind/outcome sequence.",
+        rule: "cap-scripts (exhaustive list): GOSUB recursion to depth 1..100, 1..40 nested FOR loops over distinct variables, a FOR pair re-entered by GOTO up to 5000 times, loops abandoned by GOTO/RETURN up to 1000 times, DIM with 0..2^32-1 x {1, 100} cells around the 10000-cell cap, implicit arrays with 1..40 subscripts read and written; the error (OUT OF MEMORY STACK OVERFLOW / ARRAY TOO LARGE) must appear exactly when the stated cap is exceeded and the interpreter must stay usable. typing-sessions: ill-typed writes through LET, cell assignment, FOR variable, NEXT, READ, INPUT replies and parameter binding with $ and non-$ names. loop-sessions: FOR / NEXT / GOSUB / RETURN typed one statement per turn at the prompt, mixed with program lines whose THEN and ELSE clauses both open loops and counter-guarded re-entries. structured-/hostile-sessions: C01's generators. Invariant after every host call (snapshot hook): <= 32 frames; <= 32 open loops over pairwise distinct variables, each a FOR variable that occurred in the session; every array's cell count equals the product of its dimensions and is <= 10000; every scalar, array and frame binding has the kind its name's suffix demands. Non-trivial: the session reached depth >= 31, >= 31 open loops, an array of >= 5000 cells or a rejected ill-typed write; distinct by call-kind/outcome sequence.",
         assumptions: vec!["FOR variables of a session are extracted with the tokenizer hook (instrumentation only)"],
         fuzz: Some(FuzzSpec { target: "c16_invariants", runs: 150_000, max_len: 2048, verdict: crate::fuzz::c16_verdict }),
         families,
